@@ -29,8 +29,7 @@ def impl_update(env: bytes, uci: int, dfu: int, caches: int, d: str):
     so = os.path.join(d, "storage.hex")
     do = os.path.join(d, "dfu.hex")
     for p in (so, do):
-        if os.path.exists(p):
-            os.unlink(p)
+        common.make_stale(p)
     try:
         cmd_image.main(image="update", input_file=f, storage_output_file=so, dfu_partition_output_file=do,
                        update_candidate_info_address=uci, dfu_partition_address=dfu, dfu_max_caches=caches)
@@ -58,6 +57,57 @@ def gen_cases(tier, rng):
         a = max(0, base - rng.choice([0, 1, 2, 16, 17, s, s // 2]))
         u = rng.choice([0x0E1EF340, 0xFFFC, 0xFFFFFFE0, rng.randrange(0, 1 << 32)])
         yield (s, u, a, rng.randint(0, 16))
+
+
+def cli_cases(res, drv, tier):
+    """image update through the real command line: addresses and the cache count written in decimal and in hexadecimal"""
+    from concurrent.futures import ThreadPoolExecutor
+    env = payload(300, 5)
+    cases = []
+    nums = [4096, 65536, 0x0E1EF340, 236909376, 16, 0, 10000000, 0x10000 - 8] if tier == "quick" else common.CLI_NUMBERS + [236909376, 235929600]
+    for k, n in enumerate(nums):
+        for sp in common.spellings(n)[: (2 if tier == "quick" else 4)]:
+            cases.append(("uci", n, sp))
+            cases.append(("dfu", n, sp))
+    for c in (0, 1, 6, 10, 16):
+        cases.append(("caches", c, str(c)))
+    with tempfile.TemporaryDirectory(prefix="verif_c16cli_") as d:
+        f = os.path.join(d, "env.suit")
+        open(f, "wb").write(env)
+
+        def one(k):
+            which, n, sp = cases[k]
+            so, do = os.path.join(d, f"s{k}.hex"), os.path.join(d, f"d{k}.hex")
+            common.make_stale(so)
+            common.make_stale(do)
+            uci, dfu, caches = 0x0E1EF340, 0x0E100000, 6
+            args = ["image", "update", "--input-file", f, "--storage-output-file", so, "--dfu-partition-output-file", do]
+            args += ["--update-candidate-info-address", sp if which == "uci" else hex(uci), "--dfu-partition-address", sp if which == "dfu" else hex(dfu),
+                     "--dfu-max-caches", sp if which == "caches" else str(caches)]
+            rc, log = common.run_cli(args, d)
+            if which == "uci":
+                uci = n
+            elif which == "dfu":
+                dfu = n
+            else:
+                caches = n
+            return rc, log, (open(so).read() if common.was_written(so) else None), (open(do).read() if common.was_written(do) else None), (uci, dfu, caches)
+        with ThreadPoolExecutor(max_workers=12) as ex:
+            outs = list(ex.map(one, range(len(cases))))
+    for (which, n, sp), (rc, log, st_, dt_, (uci, dfu, caches)) in zip(cases, outs):
+        res.case(["cli-update", which, n, sp], nontrivial=True)
+        res.count("cli:update:" + which)
+        ms = drv.call({"op": "update.storage", "uci": uci, "dfu": dfu, "size": len(env), "caches": caches})
+        md = drv.call({"op": "update.dfu", "dfu": dfu, "envelope": env.hex()})
+        if rc != 0 or st_ is None or dt_ is None:
+            if "ok" in ms and "ok" in md:
+                res.spec_failures.append({"cli": "image update", "argument": [which, sp], "denotes": n, "what": f"the command line refused {which} = {sp} (exit {rc})", "log": log[-300:]})
+            continue
+        rs, rd = drv.call({"op": "ihex.read", "text": st_}), drv.call({"op": "ihex.read", "text": dt_})
+        if rs != ms or rd != md:
+            res.spec_failures.append({"cli": "image update", "argument": [which, sp], "denotes": n,
+                                      "what": f"{which} written as {sp} on the command line was not read as {n}: the images differ from those for that number",
+                                      "storage_image": common_short(rs), "expected": common_short(ms)})
 
 
 def run(tier: str, seed: int) -> int:
@@ -102,6 +152,7 @@ def run(tier: str, seed: int) -> int:
                     res.mismatches.append({"op": "update", "case": case, "impl": impl, "model": "accepted"})
                     if in_domain:
                         res.spec_failures.append({"case": case, "what": "image update refused arguments inside the 32-bit address space (record, cache table and envelope all fit): " + impl["err"]})
+    cli_cases(res, drv, tier)
     drv.close()
     return finish(res, st, RULE, NOTE)
 
